@@ -8,6 +8,7 @@ import (
 	"os"
 	"os/exec"
 	"path/filepath"
+	"regexp"
 	"strings"
 	"sync/atomic"
 	"syscall"
@@ -93,12 +94,12 @@ func crashSignature(stderr string) string {
 	lines := strings.Split(stderr, "\n")
 	for i, l := range lines {
 		if strings.HasPrefix(l, "panic: ") || strings.HasPrefix(l, "fatal error: ") {
-			sig := l
+			sig := normalisePanic(l)
 			// first mieru frame
 			for _, f := range lines[i:] {
 				f = strings.TrimSpace(f)
 				if strings.HasPrefix(f, "github.com/enfein/mieru/") {
-					if k := strings.Index(f, "("); k > 0 {
+					if k := strings.LastIndex(f, "("); k > 0 {
 						f = f[:k]
 					}
 					return sig + " @ " + f
@@ -111,4 +112,24 @@ func crashSignature(stderr string) string {
 		return "DATA RACE"
 	}
 	return "process died: " + tail(strings.TrimSpace(stderr), 300)
+}
+
+var (
+	reQuoted = regexp.MustCompile(`"[^"]*"`)
+	reDigits = regexp.MustCompile(`[0-9]+`)
+	reBraces = regexp.MustCompile(`\{[^{}]*\}`)
+)
+
+// normalisePanic makes a panic message stable across runs: quoted strings,
+// numbers and struct dumps are replaced by placeholders.
+func normalisePanic(l string) string {
+	for i := 0; i < 4; i++ {
+		l = reBraces.ReplaceAllString(l, "{}")
+	}
+	l = reQuoted.ReplaceAllString(l, "S")
+	l = reDigits.ReplaceAllString(l, "N")
+	if len(l) > 160 {
+		l = l[:160]
+	}
+	return l
 }
